@@ -279,6 +279,18 @@ def check_cone(run, rule, F, cfg, roots, rows, accept_bases, stop=(), floor=0, l
             run.ob(rule, inst, True, f"[auto] {auto}", site=s.loc, config=cfg)
             continue
         row = rows.get(key)
+        if row is None and s.kind == "panic" and "assertion failed: " in key:
+            # an `assert!(cond)` is identified by the decision that fails it, not by the text of `cond` (which changes
+            # with the name of a local): the reviewed row of the same function whose required guards are exactly the
+            # decisions that dominate this site stands for it
+            pre = s.fn.name + "|panic|"
+            cands = [r for k_, r in rows.items() if k_.startswith(pre) and "assertion failed: " in k_
+                     and r.get("guards") and all(any(g == h or (g.endswith("*") and h.startswith(g[:-1])) for h in guards) for g in r["guards"])
+                     and any(("Eq" in g or "Ne" in g or "Gt" in g or "Lt" in g or "(" in g) for g in r["guards"])]
+            taken = {k2 for _s2, k2, _g2, _a2 in sites if k2 in rows}
+            cands = [r for r in cands if not any(rows.get(k2) is r for k2 in taken)]
+            if len(cands) == 1:
+                row = cands[0]
         if row is None:
             und += 1
             run.ob(rule, inst, False,
